@@ -392,6 +392,11 @@ func summarise(run *common.Run, cases []Case, results []caseResult, assumptions 
 			}
 		}
 	}
+	// (C15 thorough has more than 10^5 scenarios, one per event history: the evidence file lists a part of them)
+	if ps, ok := cov["per_scenario"].([]any); ok && len(ps) > 4000 {
+		cov["per_scenario_listed"] = fmt.Sprintf("the first 2000 and the last 2000 of %d scenarios (sorted by name; all of them are counted in the totals)", len(ps))
+		cov["per_scenario"] = append(append([]any{}, ps[:2000]...), ps[len(ps)-2000:]...)
+	}
 	run.Finish(cov, assumptions)
 }
 
